@@ -11,6 +11,7 @@ NEUTRALS = []
 
 # changes made by sub-agents that were given only the property text (see /verif/seeded/<id>/): each must stay reported
 SEEDED = [
+    {'name': 'seeded change C18-r5a', 'seed': 'C18-r5a', 'expect': '|LABEL-match|'},
     {'name': 'seeded change C18-r4a', 'seed': 'C18-r4a', 'expect': '|ORDER|'},
     {'name': 'seeded change C18-r3', 'seed': 'C18-r3', 'expect': '|NAMES|'},
     {'name': 'seeded change C18-r2', 'seed': 'C18-r2', 'expect': '|F9a-mask|'},
